@@ -140,4 +140,5 @@ def _gir_shapes(tier):
 
 generated_is_received.shapes = _gir_shapes
 generated_is_received.cost = 60
+generated_is_received.budget_s = 3000  # (thorough tier: literal payloads of 1 000+ octets with 16 preambles take more than the default 600 s)
 generated_is_received.native_random = 30
